@@ -552,7 +552,7 @@ def _time(repo, col, R="R-C08-time"):
     scan_call = next((c for c in ex.calls if isinstance(c.func, ast.Name) and c.func.id == "nested_checkpoint_scan"), None)
     if scan_call is not None:
         st_ = ex.term(scan_call)
-        xs_t = st_.args[2] if len(st_.args) > 2 else st_.kw.get("xs")
+        xs_t = idx.call_arg(repo, fi.file, st_, "xs")
         if xs_t is not None:
             for x in xs_t.walk():
                 if x.op == "dictcomp" and len(x.args) >= 3:
